@@ -53,10 +53,18 @@ def plan(tier, seed):
     for n in (3, 4) + ((5,) if tier == "thorough" else ()):
         for a, b in E.chunks(4 ** n, 16):
             shards.append(("nat", n, a, b))
+    if tier == "quick":
+        # five samples, reduced: KNN-supervised only, three labelings, two validation sets
+        for a, b in E.chunks(4 ** 5, 64):
+            shards.append(("nat", 5, a, b, "knn5"))
     # unevenly spaced points (arc lengths 0.5, 0.75, 1.5, ...: 1/d differs from d), unsupervised only
     for n in (4, 5):
         for a, b in E.chunks(4 ** n, 64):
             shards.append(("nat", n, a, b, "uneven"))
+    # ... and under a direction-dependent dissimilarity (d(a, b) != d(b, a)), on positive points
+    for n in (4, 5):
+        for a, b in E.chunks(4 ** n, 64):
+            shards.append(("nat", n, a, b, "neyman"))
     # twelve candidates (two-digit k) on a fourteen-sample set: the top accuracy at every single k
     # and at every pair of k (ties between one- and two-digit candidates)
     for part in range(4):
@@ -121,14 +129,15 @@ def execute(prog, model=None):
     if unsup:
         orig_cut = UnsupervisedOPF._normalized_cut
 
-        def cut(self, n_neighbours):
+        def cut(self, n_neighbours, *more, **kw):
+            # (further arguments of a re-organised private routine are passed through untouched)
             evaluated.append(int(n_neighbours))
             if script is not None:
                 if len(values) >= len(script):
                     raise seams.ScriptExhausted("criterion evaluated more often than candidates exist")
                 v = float(script[len(values)])
             else:
-                v = float(orig_cut(self, n_neighbours))
+                v = float(orig_cut(self, n_neighbours, *more, **kw))
                 try:
                     cut_refs.append(reference_cut(self, n_neighbours))
                 except Horizon:
@@ -392,22 +401,35 @@ def _programs(shard, seed):
         _, n, a, b = shard[:4]
         uneven = len(shard) > 4
         pts = E.lattice("1d", seed)
+        metric = "euclidean"
+        knn5 = uneven and shard[4] == "knn5"
+        if knn5:
+            uneven = False
         if uneven:
             pts = [(v * sc,) for v in (0.0, 0.5, 2.0, 2.75)]
+            if shard[4] == "neyman":
+                metric = "neyman"
+                pts = [(v * sc, (3.5 - v) * sc) for v in (0.5, 1.0, 2.5, 3.25)]
         for si in range(a, b):
             seq = E.sequence_at(len(pts), n, si)
             X = [list(pts[i]) for i in seq]
             for mx in range(1, n):
                 for mn in range(1, mx + 1):
-                    yield {"model": "UnsupervisedOPF", "mode": "features", "X": X, "metric": "euclidean",
+                    if knn5:
+                        break
+                    yield {"model": "UnsupervisedOPF", "mode": "features", "X": X, "metric": metric,
                            "labels": [i % 2 for i in range(n)], "min_k": mn, "max_k": mx, "script": None}
                 if uneven:
                     continue
-                for lab in E.labelings(n, max_classes=2):
+                labs5 = [tuple(i % 2 for i in range(n)), tuple(0 if i < n // 2 else 1 for i in range(n)),
+                         tuple(1 if i == 2 else 0 for i in range(n))]
+                for lab in (labs5 if knn5 else E.labelings(n, max_classes=2)):
                     lab = list(lab)
                     vals = [{"X": X, "labels": lab},
                             {"X": [list(pts[0]), list(pts[3]), list(pts[1])], "labels": [0, 1, 1]},
                             {"X": [list(pts[2]), list(pts[2])], "labels": [1, 0]}]
+                    if knn5:
+                        vals = vals[:2]
                     for v in vals:
                         yield {"model": "KNNSupervisedOPF", "mode": "features", "X": X,
                                "metric": "euclidean", "labels": lab, "max_k": mx, "val": v,
